@@ -136,7 +136,8 @@ def allocateK (o : Org) (addr : Int → Int) (w h a i : Int) : Placed × Int :=
 def Placed.view (o : Org) (p : Placed) : View :=
   { base := (p.tmp - p.mem) * o.b2m, xs := o.mstep, ys := p.row, w := p.vw, h := p.vh }
 
-/-- `image(w, h, alignment)`: `allocate_` on an empty image -/
+/-- `image(w, h, alignment)`: `allocate_` on an empty image (since 42a1d3b a request of 0 bytes still builds the view, with the
+    requested dimensions, over the null `_memory`) -/
 def allocate (o : Org) (addr : Int → Int) (w h a : Int) : Img :=
   let p := (allocateK o addr w h a 0).1
   { mem := p.mem, allocated := p.allocated, a := a, view := p.view o, plane := fun k => (allocateK o addr w h a k).2 }
